@@ -5,15 +5,17 @@
      {"ev":"Deliver","node":i,"bytes":k,"hash":k2,"commit":k3}
         node i's subscriber received a payload whose deterministic encoding equals proposer k's original (0: nobody's),
         whose recomputed hash equals proposer k2's original hash, while the COMMIT quorum node i saw (its sniffer)
-        carries proposer k3's hash (0: nobody's, -1: a second delivery, -2: two quorums). *)
+        (or, if its own view is a message short, all sniffers together: "view") carries proposer k3's hash
+        (0: no quorum visible - the relation to the agreed hash is then unobserved for this event, -1: a second delivery,
+        -2: quorums on two hashes). *)
 EXTENDS ConsDeliver, TraceCommon
 tvars == <<dvars, tr, l>>
 TraceInit == DInit /\ TrInit
 TReset == IsEvent("Reset") /\ l = 1 /\ Ev.NN = NN /\ UNCHANGED dvars
 TPropose == IsEvent("Propose") /\ Propose(Ev.node)
-\* the agreed hash becomes known with the first delivery event
-TAgree == l <= TLen /\ Ev.ev = "Deliver" /\ Agree(Ev.commit) /\ Silent
-TDeliver == /\ IsEvent("Deliver") /\ Ev.commit = agreed /\ Ev.hash = Ev.bytes
+\* the agreed hash becomes known with the first delivery event (from the payload if no commit quorum was visible)
+TAgree == l <= TLen /\ Ev.ev = "Deliver" /\ Agree(IF Ev.commit = 0 THEN Ev.hash ELSE Ev.commit) /\ Silent
+TDeliver == /\ IsEvent("Deliver") /\ Ev.commit \in {0, agreed} /\ Ev.hash = Ev.bytes
             /\ Deliver(Ev.node, Ev.bytes)
 TraceNext == TReset \/ TPropose \/ TAgree \/ TDeliver
 TraceSpec == TraceInit /\ [][TraceNext]_tvars
